@@ -19,6 +19,8 @@ OBSERVERS = ('Container.get_volume', 'Container.get_concentration')
 
 
 def run(ctx):
+    from .configtime import observers_convert_to_the_requested_unit as _obs_units
+    _obs_units(ctx, 'C18.R2')
     from .c03 import rounded_stock_compare as _stock
     _stock(ctx, 'C18.R3')
     from .configtime import derived_values as _derived
